@@ -365,6 +365,9 @@ impl AsServer<'_> {
                 let is_valid = addr.iter().all(|proto| match proto {
                     Protocol::P2pCircuit => false,
                     Protocol::P2p(peer_id) => peer_id == peer,
+                    // Only the first IP component was replaced above: refuse addresses
+                    // that carry any other IP than the observed one.
+                    Protocol::Ip4(_) | Protocol::Ip6(_) => proto == observed_ip,
                     _ => true,
                 });
 
